@@ -82,9 +82,11 @@ def step (s : Sys) : Op → Sys × Out
       ({ s with c := c', rds := s.rds.set i r', idx := s.idx.set i (s.idx.getD i 0 + min len k) }, .unit)
 
 /-- Usage rules of the API (decidable; hypotheses of the theorems):
-one writer alternating map / (commit | abort); a reader maps only when unmapped. -/
+one writer, whose commit / abort ends a mapped write; a reader maps only when unmapped.
+Mapping again without ending the previous write is within the rules (the earlier region is dropped: `channel_write_map`
+never looks at `mapped`); `source.c` does it after a failed `camera_get_frame`. -/
 def Op.wf (s : Sys) : Op → Bool
-  | .wmap _ => !s.pending
+  | .wmap _ => true
   | .wcommit => s.pending
   | .wabort => s.pending
   | .accept _ => true
